@@ -417,9 +417,9 @@ pub fn plan_mint_auth(w: &World, _k: &Knobs, actor: &mut Actor, l: &Ledger) -> V
             Tx { ixs: vec![ix::from_sol(spl_token_2022::extension::transfer_fee::instruction::set_transfer_fee(&ix::tok22(), &m.key, &actor.wallet, &[], bps, max).unwrap())] },
             "set_transfer_fee".to_string(),
         ));
-        // one fee change in twelve is the last one: the authority over the fee configuration is renounced right behind it,
+        // one fee change in forty is the last one: the authority over the fee configuration is renounced right behind it,
         // while the change is still pending (the schedule stays as it is: the old fee until the activation epoch)
-        if rng.chance(1, 12) {
+        if rng.chance(1, 40) {
             flow.push((
                 Tx { ixs: vec![ix::from_sol(spl_token_2022::instruction::set_authority(&ix::tok22(), &m.key, None, spl_token_2022::instruction::AuthorityType::TransferFeeConfig, &actor.wallet, &[]).unwrap())] },
                 "renounce the transfer-fee authority".to_string(),
